@@ -645,3 +645,540 @@ Proof.
   - intros k Hk. eapply keys_listed; [exact Hs|]. intros Hn.
     pose proof (b_ent _ _ IB k Hn) as H. unfold tc in H. apply cn_pos in Hk. lia.
 Qed.
+
+(* ============================================================================ group C: blockers accounting *)
+Lemma cnt_app l1 l2 t : cnt (l1 ++ l2) t = cnt l1 t + cnt l2 t.
+Proof. unfold cnt. apply count_occ_app. Qed.
+Lemma cnt_replicate n t t' : cnt (replicate n t) t' = if N.eq_dec t t' then n else 0.
+Proof.
+  unfold cnt. induction n; cbn; [destruct (N.eq_dec t t'); reflexivity|].
+  rewrite IHn. destruct (N.eq_dec t t'); lia.
+Qed.
+Lemma cnt_pos_in l t : 0 < cnt l t -> In t l.
+Proof. unfold cnt. apply count_occ_In. Qed.
+Lemma cnt_in_pos l t : In t l -> 0 < cnt l t.
+Proof. unfold cnt. apply count_occ_In. Qed.
+
+Lemma cn_le_cntb (f : key -> bool) l k : f k = true -> cn l k <= cntb f l.
+Proof.
+  intros Hf. induction l as [|x l IH]; cbn; [lia|]. destruct (decide (x = k)) as [->|]; [rewrite Hf|]; lia.
+Qed.
+Lemma cntb_0 {A} (f : A -> bool) l : cntb f l = 0 -> forall x, x ∈ l -> f x = false.
+Proof.
+  induction l as [|y l IH]; intros H x Hin; [inversion Hin|]. cbn in H.
+  apply elem_of_cons in Hin as [->|Hin]; [destruct (f y); [lia|reflexivity]|]. apply IH; [lia|exact Hin].
+Qed.
+Lemma pendK_upd_cached K k v bl k' :
+  pendK (upd K k (Some (mkK (Some v) bl))) k' = if decide (k = k') then false else pendK K k'.
+Proof. unfold pendK, upd. destruct (decide (k = k')); reflexivity. Qed.
+Lemma cachedK_upd_cached K k v bl k' :
+  cachedK (upd K k (Some (mkK (Some v) bl))) k' = if decide (k = k') then true else cachedK K k'.
+Proof. unfold cachedK, upd. destruct (decide (k = k')); reflexivity. Qed.
+Lemma cntb_pend_upd K k v bl l : pendK K k = true ->
+  cntb (pendK (upd K k (Some (mkK (Some v) bl)))) l + cn l k = cntb (pendK K) l.
+Proof.
+  intros Hp. induction l as [|x l IH]; cbn; [reflexivity|]. rewrite pendK_upd_cached.
+  destruct (decide (k = x)) as [<-|Hne].
+  - rewrite Hp. destruct (decide (k = k)); [lia|congruence].
+  - destruct (decide (x = k)); [congruence|]. lia.
+Qed.
+Lemma cntb_pend_upd_same K k v bl l : pendK K k = false ->
+  cntb (pendK (upd K k (Some (mkK (Some v) bl)))) l = cntb (pendK K) l.
+Proof.
+  intros Hp. apply cntb_ext. intros x _. rewrite pendK_upd_cached. destruct (decide (k = x)) as [<-|]; auto.
+Qed.
+
+Lemma notified_tkeys r n : tkeys (notified r n) = tkeys r.
+Proof. destruct n; reflexivity. Qed.
+Lemma notified_blockers r n : blockers (notified r n) = (blockers r - Z.of_nat n)%Z.
+Proof. destruct n; cbn [notified blockers]; lia. Qed.
+Lemma notified_waiter r n : (Z.of_nat n <= blockers r)%Z -> (waiter r = WOpen <-> (0 < blockers r)%Z) ->
+  (waiter (notified r n) = WOpen <-> (0 < blockers r - Z.of_nat n)%Z).
+Proof.
+  intros Hle Hw. destruct n; cbn [notified waiter].
+  - rewrite Hw. lia.
+  - destruct (Z.eqb_spec (blockers r - Z.of_nat (S n)) 0).
+    + split; [discriminate|lia].
+    + rewrite Hw. lia.
+Qed.
+
+Lemma collect_get_map parent K ks :
+  (forall k, k ∈ ks -> exists kr, K k = Some kr /\ cache kr = Some (parent !! k)) ->
+  collect K ks = get_map parent ks.
+Proof.
+  induction ks as [|k ks IH]; intros H; [reflexivity|]. unfold collect, get_map in *. cbn [foldr].
+  destruct (H k) as (kr & HK & Hc); [constructor|]. rewrite HK, Hc.
+  rewrite IH; [destruct (parent !! k); reflexivity|]. intros k' Hk'. apply H. constructor. exact Hk'.
+Qed.
+
+Record InvC (c : cfg) (s : state) : Prop := {
+  c_brk : broken s = false;
+  c_cblk : forall k kr r, keys s k = Some kr -> cache kr = Some r -> blocked kr = [];
+  c_txkeys : forall t r, txs s t = Some r -> forall k, k ∈ tkeys r -> keys s k <> None;
+  c_blk : forall t r, txs s t = Some r -> blockers r = Z.of_nat (cntb (pendK (keys s)) (tkeys r));
+  c_wait : forall t r, txs s t = Some r -> (waiter r = WOpen <-> (0 < blockers r)%Z);
+  c_bcnt : forall k kr, keys s k = Some kr -> cache kr = None ->
+           forall t, cnt (blocked kr) t = match txs s t with Some r => cn (tkeys r) k | None => 0 end;
+  c_gread : forall g t, gph s g = GRead t ->
+            exists r, txs s t = Some r /\ forall k, k ∈ tkeys r -> cachedK (keys s) k = true;
+  c_gwait : forall g t, gph s g = GWait t -> txs s t <> None;
+  c_logget : forall g t m, EvGetRet g t (GMap m) ∈ log s ->
+             exists r, txs s t = Some r /\ m = get_map (c_parent c) (tkeys r) /\
+                       forall k, k ∈ tkeys r -> is_fail c k = false
+}.
+
+Lemma invC_init c : InvC c (init c).
+Proof.
+  split; cbn; intros; try discriminate; try reflexivity.
+  match goal with H : _ ∈ [] |- _ => inversion H end.
+Qed.
+
+Ltac solveC IC :=
+  destruct IC as [Hbrk Hcblk Htxkeys Hblk Hwait Hbcnt Hgread Hgwait Hlogget];
+  split;
+  cbn [keys txs err onc stop tclosed queue unsent fph gph ws dupid broken log set_w set_ws set_fph set_gph] in *.
+
+Ltac log_old Hlogget :=
+  let g0 := fresh "g" in let t0 := fresh "t" in let m0 := fresh "m" in let Hin := fresh "Hin" in
+  intros g0 t0 m0 Hin; cbn [app] in Hin;
+  apply elem_of_cons in Hin as [Hin|Hin]; [discriminate Hin|]; exact (Hlogget _ _ _ Hin).
+
+Ltac gph_old Hg :=
+  let g0 := fresh "g" in let t0 := fresh "t" in let Hq := fresh "Hq" in
+  intros g0 t0 Hq; unfold upd in Hq;
+  match type of Hq with (if decide (?a = ?b) then _ else _) = _ =>
+    destruct (decide (a = b)); [discriminate Hq|exact (Hg _ _ Hq)] end.
+
+Lemma fk_listed t K ks K' tasks b k : fk_spec t K ks K' tasks b -> k ∈ ks -> K' k <> None.
+Proof.
+  intros Hfk Hi. destruct (K k) as [kr|] eqn:EK.
+  - destruct (cache kr) eqn:Ec.
+    + assert (Hx : cachedK K k = true) by (unfold cachedK; rewrite EK, Ec; reflexivity).
+      rewrite (fk_cached _ _ _ _ _ _ Hfk _ Hx), EK. discriminate.
+    + rewrite (fk_pend _ _ _ _ _ _ Hfk _ _ Hi EK Ec). discriminate.
+  - rewrite (fk_new _ _ _ _ _ _ Hfk _ Hi EK). discriminate.
+Qed.
+Lemma fk_pend_listed t K ks K' tasks b k : fk_spec t K ks K' tasks b -> k ∈ ks -> pendK K' k = negb (cachedK K k).
+Proof.
+  intros Hfk Hi. unfold pendK, cachedK. destruct (K k) as [kr|] eqn:EK.
+  - destruct (cache kr) eqn:Ec.
+    + assert (Hx : cachedK K k = true) by (unfold cachedK; rewrite EK, Ec; reflexivity).
+      rewrite (fk_cached _ _ _ _ _ _ Hfk _ Hx), EK, Ec. reflexivity.
+    + rewrite (fk_pend _ _ _ _ _ _ Hfk _ _ Hi EK Ec). reflexivity.
+  - rewrite (fk_new _ _ _ _ _ _ Hfk _ Hi EK). reflexivity.
+Qed.
+Lemma fk_pend_same t K ks K' tasks b k : fk_spec t K ks K' tasks b -> K k <> None -> pendK K' k = pendK K k.
+Proof.
+  intros Hfk Hn. unfold pendK. destruct (K k) as [kr|] eqn:EK; [|congruence].
+  destruct (cache kr) eqn:Ec.
+  - assert (Hx : cachedK K k = true) by (unfold cachedK; rewrite EK, Ec; reflexivity).
+    rewrite (fk_cached _ _ _ _ _ _ Hfk _ Hx), EK, Ec. reflexivity.
+  - destruct (decide (k ∈ ks)) as [Hi|Hni].
+    + rewrite (fk_pend _ _ _ _ _ _ Hfk _ _ Hi EK Ec). reflexivity.
+    + rewrite (fk_other _ _ _ _ _ _ Hfk _ Hni), EK, Ec. reflexivity.
+Qed.
+Lemma fk_cached_mono t K ks K' tasks b k : fk_spec t K ks K' tasks b -> cachedK K k = true -> cachedK K' k = true.
+Proof. intros Hfk Hx. unfold cachedK at 1. rewrite (fk_cached _ _ _ _ _ _ Hfk _ Hx). exact Hx. Qed.
+Lemma fk_blocked t K ks K' tasks b k kr : fk_spec t K ks K' tasks b -> K' k = Some kr -> cache kr = None ->
+  (K k = None /\ blocked kr = replicate (cn ks k) t) \/
+  (exists kr0, K k = Some kr0 /\ cache kr0 = None /\ blocked kr = blocked kr0 ++ replicate (cn ks k) t).
+Proof.
+  intros Hfk HK' Hc. destruct (K k) as [kr0|] eqn:EK.
+  - right. exists kr0. destruct (cache kr0) eqn:Ec.
+    + assert (Hx : cachedK K k = true) by (unfold cachedK; rewrite EK, Ec; reflexivity).
+      rewrite (fk_cached _ _ _ _ _ _ Hfk _ Hx), EK in HK'. inversion HK'; subst. congruence.
+    + split; [reflexivity|]. split; [reflexivity|]. destruct (decide (k ∈ ks)) as [Hi|Hni].
+      * rewrite (fk_pend _ _ _ _ _ _ Hfk _ _ Hi EK Ec) in HK'. inversion HK'; subst. reflexivity.
+      * rewrite (fk_other _ _ _ _ _ _ Hfk _ Hni), EK in HK'. inversion HK'; subst.
+        rewrite (cn_0 _ _ Hni). cbn. rewrite app_nil_r. reflexivity.
+  - left. split; [reflexivity|]. destruct (decide (k ∈ ks)) as [Hi|Hni].
+    + rewrite (fk_new _ _ _ _ _ _ Hfk _ Hi EK) in HK'. inversion HK'; subst. reflexivity.
+    + rewrite (fk_other _ _ _ _ _ _ Hfk _ Hni), EK in HK'. discriminate.
+Qed.
+
+(* the loop of set, under the accounting invariant *)
+Lemma set_spec c s k kr : InvC c s -> keys s k = Some kr ->
+  exists T', notify (txs s) (blocked kr) = (T', false) /\
+    forall t, T' t = match txs s t with
+                     | Some r => Some (notified r (if pendK (keys s) k then cn (tkeys r) k else 0))
+                     | None => None
+                     end.
+Proof.
+  intros IC HK. destruct (cache kr) as [v|] eqn:Ec.
+  - rewrite (c_cblk _ _ IC _ _ _ HK Ec). exists (txs s). split; [reflexivity|]. intros t.
+    unfold pendK. rewrite HK, Ec. destruct (txs s t); reflexivity.
+  - assert (Hp : pendK (keys s) k = true) by (unfold pendK; rewrite HK, Ec; reflexivity).
+    destruct (notify_spec (txs s) (blocked kr)) as (T' & HT & Hsp).
+    { intros t Hin. apply cnt_in_pos in Hin. rewrite (c_bcnt _ _ IC _ _ HK Ec t) in Hin |- *.
+      destruct (txs s t) as [r|] eqn:ET; [|lia]. exists r. split; [reflexivity|].
+      pose proof (c_blk _ _ IC _ _ ET) as Hb. pose proof (cn_le_cntb (pendK (keys s)) (tkeys r) k Hp).
+      split; [apply (c_wait _ _ IC _ _ ET)|]; lia. }
+    exists T'. split; [exact HT|]. intros t. rewrite Hsp, Hp, (c_bcnt _ _ IC _ _ HK Ec t).
+    destruct (txs s t); reflexivity.
+Qed.
+
+Ltac set_pre c Hbrk Hcblk Htxkeys Hblk Hwait Hbcnt Hgread Hgwait Hlogget :=
+  match goal with HK : keys _ _ = Some ?kr, HN : notify _ _ = _ |- _ =>
+    destruct (set_spec c _ _ _ (Build_InvC _ _ Hbrk Hcblk Htxkeys Hblk Hwait Hbcnt Hgread Hgwait Hlogget) HK)
+      as (T' & HT & Hsp); rewrite HN in HT; inversion HT; subst; clear HT end.
+
+Lemma invC_step c s l s' : InvA c s -> InvB c s -> InvC c s -> dupid s' = false ->
+  step c s l = Some s' -> InvC c s'.
+Proof.
+  intros IA IB IC Hdup H. destruct l; cbn [step] in H; des_step H; solveC IC.
+  all: try exact Hbrk. all: try exact Hcblk. all: try exact Htxkeys. all: try exact Hblk. all: try exact Hwait.
+  all: try exact Hbcnt. all: try exact Hgread. all: try exact Hgwait. all: try exact Hlogget.
+  all: try (log_old Hlogget).
+  all: try (gph_old Hgread). all: try (gph_old Hgwait).
+  (* ---- LFetch ---- *)
+  all: try (pose proof (fetch_keys_spec t (keys s) ks) as Hfk;
+            match goal with E : fetch_keys _ _ _ = _ |- _ => rewrite E in Hfk end;
+            assert (Htn : txs s t = None)
+              by (apply orb_false_iff in Hdup as [_ Hd]; destruct (txs s t); [discriminate|reflexivity])).
+  - intros k kr r Hk Hr. eapply Hcblk; [eapply fk_cache_inv; eassumption|exact Hr].
+  - intros t1 r Hr k Hk. unfold upd in Hr. destruct (decide (t = t1)).
+    + inversion Hr; subst. cbn in Hk. eapply fk_listed; eassumption.
+    + intros Hn. eapply Htxkeys; [exact Hr|exact Hk|]. eapply fk_mono; eassumption.
+  - intros t1 r Hr. unfold upd in Hr. destruct (decide (t = t1)).
+    + inversion Hr; subst. cbn. rewrite (fk_b _ _ _ _ _ _ Hfk). f_equal. apply cntb_ext.
+      intros x Hx. symmetry. eapply fk_pend_listed; eassumption.
+    + rewrite (Hblk _ _ Hr). f_equal. apply cntb_ext. intros x Hx. symmetry.
+      eapply fk_pend_same; [eassumption|]. eapply Htxkeys; eassumption.
+  - intros t1 r Hr. unfold upd in Hr. destruct (decide (t = t1)).
+    + inversion Hr; subst. cbn. destruct (Z.ltb_spec 0 z); split; intros; try discriminate; try lia; reflexivity.
+    + eapply Hwait; eassumption.
+  - intros k kr Hk Hc t1.
+    destruct (fk_blocked _ _ _ _ _ _ _ _ Hfk Hk Hc) as [[HK Hb]|(kr0 & HK & Hc0 & Hb)]; rewrite Hb.
+    + rewrite cnt_replicate. unfold upd. destruct (decide (t = t1)) as [<-|Hne].
+      * destruct (N.eq_dec t t); [reflexivity|congruence].
+      * destruct (N.eq_dec t t1); [congruence|]. destruct (txs s t1) as [r1|] eqn:Etx1; [|reflexivity].
+        symmetry. apply cn_0. intros Hin. eapply Htxkeys; eassumption.
+    + rewrite cnt_app, cnt_replicate, (Hbcnt _ _ HK Hc0 t1). unfold upd. destruct (decide (t = t1)) as [<-|Hne].
+      * rewrite Htn. destruct (N.eq_dec t t); [reflexivity|congruence].
+      * destruct (N.eq_dec t t1); [congruence|]. lia.
+  - intros g t1 Hg. destruct (Hgread _ _ Hg) as (r & Hr & Hc). exists r. split.
+    + rewrite upd_ne; [exact Hr|]. intros ->. congruence.
+    + intros k Hk. eapply fk_cached_mono; eauto.
+  - intros g t1 Hg. unfold upd. destruct (decide (t = t1)); [discriminate|]. eapply Hgwait; eassumption.
+  - intros g t1 m Hin. destruct (Hlogget _ _ _ Hin) as (r & Hr & Hm). exists r. split; [|exact Hm].
+    rewrite upd_ne; [exact Hr|]. intros ->. congruence.
+  (* ---- LSend ---- *)
+  - rewrite Hbrk. cbn. destruct (tclosed s) eqn:Etc; [|reflexivity].
+    match goal with Hp : pop_first _ _ = Some _ |- _ => rewrite (a_tclosed _ _ IA Etc) in Hp; discriminate Hp end.
+  (* ---- LSet ---- *)
+  - set_pre c Hbrk Hcblk Htxkeys Hblk Hwait Hbcnt Hgread Hgwait Hlogget.
+    rewrite Hbrk. reflexivity.
+  - set_pre c Hbrk Hcblk Htxkeys Hblk Hwait Hbcnt Hgread Hgwait Hlogget.
+    intros k1 kr1 r1 Hk Hr. unfold upd in Hk. destruct (decide (k = k1)).
+    + inversion Hk; subst. reflexivity.
+    + eapply Hcblk; eassumption.
+  - set_pre c Hbrk Hcblk Htxkeys Hblk Hwait Hbcnt Hgread Hgwait Hlogget.
+    intros t1 r1 Hr k1 Hk. rewrite Hsp in Hr. destruct (txs s t1) as [r0|] eqn:Etx0; [|discriminate].
+    inversion Hr; subst. rewrite notified_tkeys in Hk. unfold upd. destruct (decide (k = k1)); [discriminate|].
+    eapply Htxkeys; eassumption.
+  - set_pre c Hbrk Hcblk Htxkeys Hblk Hwait Hbcnt Hgread Hgwait Hlogget.
+    intros t1 r1 Hr. rewrite Hsp in Hr. destruct (txs s t1) as [r0|] eqn:Etx0; [|discriminate].
+    inversion Hr; subst. rewrite notified_blockers, notified_tkeys, (Hblk _ _ Etx0).
+    destruct (pendK (keys s) k) eqn:Ep.
+    + pose proof (cntb_pend_upd (keys s) k r [] (tkeys r0) Ep). lia.
+    + rewrite (cntb_pend_upd_same (keys s) k r [] (tkeys r0) Ep). lia.
+  - set_pre c Hbrk Hcblk Htxkeys Hblk Hwait Hbcnt Hgread Hgwait Hlogget.
+    intros t1 r1 Hr. rewrite Hsp in Hr. destruct (txs s t1) as [r0|] eqn:Etx0; [|discriminate].
+    inversion Hr; subst. rewrite notified_blockers. apply notified_waiter; [|eapply Hwait; eassumption].
+    rewrite (Hblk _ _ Etx0). destruct (pendK (keys s) k) eqn:Ep; [|lia].
+    pose proof (cn_le_cntb (pendK (keys s)) (tkeys r0) k Ep). lia.
+  - set_pre c Hbrk Hcblk Htxkeys Hblk Hwait Hbcnt Hgread Hgwait Hlogget.
+    intros k1 kr1 Hk Hc t1. unfold upd in Hk. destruct (decide (k = k1)).
+    + inversion Hk; subst. discriminate.
+    + rewrite (Hbcnt _ _ Hk Hc t1), Hsp. destruct (txs s t1); [rewrite notified_tkeys|]; reflexivity.
+  - set_pre c Hbrk Hcblk Htxkeys Hblk Hwait Hbcnt Hgread Hgwait Hlogget.
+    intros g t1 Hg. destruct (Hgread _ _ Hg) as (r0 & Hr & Hc). eexists. split; [rewrite Hsp, Hr; reflexivity|].
+    intros k1 Hk. rewrite notified_tkeys in Hk. rewrite cachedK_upd_cached. destruct (decide (k = k1)); auto.
+  - set_pre c Hbrk Hcblk Htxkeys Hblk Hwait Hbcnt Hgread Hgwait Hlogget.
+    intros g t1 Hg. rewrite Hsp. pose proof (Hgwait _ _ Hg). destruct (txs s t1); [discriminate|congruence].
+  - set_pre c Hbrk Hcblk Htxkeys Hblk Hwait Hbcnt Hgread Hgwait Hlogget.
+    intros g t1 m Hin. destruct (Hlogget _ _ _ Hin) as (r0 & Hr & Hm). eexists. split; [rewrite Hsp, Hr; reflexivity|].
+    rewrite notified_tkeys. exact Hm.
+  - exfalso. match goal with Hw : ws s !! _ = Some (WGot _ _) |- _ => destruct (b_wgot _ _ IB _ _ _ Hw) as [Hin _] end.
+    apply cn_pos in Hin. match goal with HK : keys s _ = None |- _ => pose proof (b_ent _ _ IB _ HK) as Ht end.
+    unfold tc in Ht. lia.
+  (* ---- LGetBegin ---- *)
+  - intros g1 t1 Hq. unfold upd in Hq. destruct (decide (g = g1)).
+    + inversion Hq; subst. congruence.
+    + eapply Hgwait; eassumption.
+  (* ---- LGetWake false: waiter nil / closed ---- *)
+  - intros g1 t1 Hq. unfold upd in Hq. destruct (decide (g = g1)); [|eapply Hgread; eassumption].
+    inversion Hq; subst.
+    match goal with Ht : txs _ _ = Some ?r |- _ =>
+      exists r; split; [exact Ht|];
+      pose proof (Hblk _ _ Ht) as Hb; pose proof (proj1 (Hwait _ _ Ht)) as Hw1;
+      pose proof (proj2 (Hwait _ _ Ht)) as Hw2;
+      assert (Hz : cntb (pendK (keys s)) (tkeys r) = 0)
+        by (destruct (cntb (pendK (keys s)) (tkeys r)); [reflexivity|];
+            assert (waiter r = WOpen) by (apply Hw2; lia); congruence);
+      intros k1 Hk1; pose proof (cntb_0 _ _ Hz _ Hk1) as Hp; pose proof (Htxkeys _ _ Ht _ Hk1) as He;
+      unfold pendK in Hp; unfold cachedK; destruct (keys s k1) as [kr1|]; [|congruence];
+      destruct (cache kr1); [reflexivity|discriminate]
+    end.
+  - intros g1 t1 Hq. unfold upd in Hq. destruct (decide (g = g1)); [|eapply Hgread; eassumption].
+    inversion Hq; subst.
+    match goal with Ht : txs _ _ = Some ?r |- _ =>
+      exists r; split; [exact Ht|];
+      pose proof (Hblk _ _ Ht) as Hb; pose proof (proj1 (Hwait _ _ Ht)) as Hw1;
+      pose proof (proj2 (Hwait _ _ Ht)) as Hw2;
+      assert (Hz : cntb (pendK (keys s)) (tkeys r) = 0)
+        by (destruct (cntb (pendK (keys s)) (tkeys r)); [reflexivity|];
+            assert (waiter r = WOpen) by (apply Hw2; lia); congruence);
+      intros k1 Hk1; pose proof (cntb_0 _ _ Hz _ Hk1) as Hp; pose proof (Htxkeys _ _ Ht _ Hk1) as He;
+      unfold pendK in Hp; unfold cachedK; destruct (keys s k1) as [kr1|]; [|congruence];
+      destruct (cache kr1); [reflexivity|discriminate]
+    end.
+  (* ---- LGetRead ---- *)
+  - intros g1 t2 m Hin. cbn [app] in Hin. apply elem_of_cons in Hin as [Hin|Hin]; [|eapply Hlogget; eassumption].
+    inversion Hin; subst.
+    match goal with Hg : gph s _ = GRead _ |- _ => destruct (Hgread _ _ Hg) as (r0 & Hr & Hc) end.
+    match goal with Ht : txs s _ = Some t0 |- _ => rewrite Ht in Hr; inversion Hr; subst end.
+    exists r0. split; [assumption|]. split.
+    + f_equal. apply collect_get_map. intros k Hk. specialize (Hc _ Hk). unfold cachedK in Hc.
+      destruct (keys s k) as [kr|] eqn:EK; [|discriminate]. destruct (cache kr) as [v|] eqn:Ec; [|discriminate].
+      exists kr. split; [reflexivity|]. destruct (b_cache _ _ IB _ _ _ EK Ec) as (_ & -> & _). exact Ec.
+    + intros k Hk. specialize (Hc _ Hk). unfold cachedK in Hc.
+      destruct (keys s k) as [kr|] eqn:EK; [|discriminate]. destruct (cache kr) as [v|] eqn:Ec; [|discriminate].
+      apply (b_cache _ _ IB _ _ _ EK Ec).
+Qed.
+
+(* ============================================================================ results over all traces *)
+Lemma dupid_mono c s l s' : step c s l = Some s' -> dupid s' = false -> dupid s = false.
+Proof.
+  intros H Hd. destruct l; cbn [step] in H; des_step H;
+    cbn [dupid set_w set_ws set_fph set_gph] in Hd; try exact Hd.
+  apply orb_false_iff in Hd as [Hd _]. exact Hd.
+Qed.
+
+Lemma reach_C c tr s : steps c (init c) tr s -> dupid s = false -> InvC c s.
+Proof.
+  revert tr s. apply (steps_ind_inv c (fun _ s => dupid s = false -> InvC c s)).
+  - intros _. apply invC_init.
+  - intros tr s l s' Hs IH Hst Hd. destruct (reach_AB _ _ _ Hs) as [IA IB].
+    eapply invC_step; eauto. apply IH. eapply dupid_mono; eassumption.
+Qed.
+
+Lemma notify_tkeys bl : forall T brk T' brk', fold_left dec_one bl (T, brk) = (T', brk') ->
+  forall t, option_map tkeys (T' t) = option_map tkeys (T t).
+Proof.
+  induction bl as [|t0 bl IH]; intros T brk T' brk' H t; cbn in H; [inversion H; reflexivity|].
+  destruct (T t0) as [r0|] eqn:E0.
+  - destruct (blockers r0 - 1 =? 0)%Z; [destruct (waiter r0)|]; rewrite (IH _ _ _ _ H t); unfold upd;
+      destruct (decide (t0 = t)) as [<-|]; try reflexivity; rewrite E0; reflexivity.
+  - apply (IH _ _ _ _ H t).
+Qed.
+
+(* every tx record stems from a Fetch call of the trace with that id and key list *)
+Lemma tx_listed c tr s : steps c (init c) tr s ->
+  forall t r, txs s t = Some r -> exists i, LFetch i t (tkeys r) ∈ tr.
+Proof.
+  revert tr s.
+  apply (steps_ind_inv c (fun tr s => forall t r, txs s t = Some r -> exists i, LFetch i t (tkeys r) ∈ tr)).
+  - intros t r H. discriminate H.
+  - intros tr s l s' _ IH Hst t1 r1 Hr.
+    assert (Hold : forall r0, txs s t1 = Some r0 -> tkeys r0 = tkeys r1 -> exists i, LFetch i t1 (tkeys r1) ∈ tr ++ [l]).
+    { intros r0 H0 He. destruct (IH _ _ H0) as [i Hi]. exists i. rewrite <- He. apply elem_of_app. left. exact Hi. }
+    destruct l; cbn [step] in Hst; des_step Hst;
+      cbn [txs set_w set_ws set_fph set_gph] in Hr; try (eapply Hold; [exact Hr|reflexivity]).
+    + (* LFetch *)
+      unfold upd in Hr. destruct (decide (t = t1)) as [<-|].
+      * inversion Hr; subst. cbn. exists i. apply elem_of_app. right. constructor.
+      * eapply Hold; [exact Hr|reflexivity].
+    + (* LSet *)
+      match goal with HN : notify _ _ = _ |- _ => pose proof (notify_tkeys _ _ _ _ _ HN t1) as Hk end.
+      rewrite Hr in Hk. cbn in Hk. destruct (txs s t1) as [r0|] eqn:E0; [|discriminate].
+      cbn in Hk. inversion Hk. eapply Hold; [reflexivity|congruence].
+Qed.
+
+Lemma get_results_log s g t r : (g, t, r) ∈ get_results s <-> EvGetRet g t r ∈ log s.
+Proof.
+  unfold get_results. rewrite elem_of_list_In, <- in_rev, <- elem_of_list_In, elem_of_list_omap. split.
+  - intros (e & He & Hq). destruct e; try discriminate. inversion Hq; subst. exact He.
+  - intros H. exists (EvGetRet g t r). split; [exact H|reflexivity].
+Qed.
+
+Lemma get_values c tr s : steps c (init c) tr s -> dupid s = false ->
+  forall g t m, (g, t, GMap m) ∈ get_results s ->
+  exists i ks, LFetch i t ks ∈ tr /\ m = get_map (c_parent c) ks /\ forall k, k ∈ ks -> is_fail c k = false.
+Proof.
+  intros Hs Hd g t m Hin. apply get_results_log in Hin.
+  destruct (c_logget _ _ (reach_C _ _ _ Hs Hd) _ _ _ Hin) as (r & Hr & Hm & Hf).
+  destruct (tx_listed _ _ _ Hs _ _ Hr) as [i Hi]. exists i, (tkeys r). auto.
+Qed.
+
+Lemma get_map_lookup (parent : gmap key val) ks k :
+  get_map parent ks !! k = if decide (k ∈ ks) then parent !! k else None.
+Proof.
+  unfold get_map. induction ks as [|x ks IH]; cbn [foldr].
+  - rewrite lookup_empty. destruct (decide (k ∈ [])) as [H|]; [inversion H|reflexivity].
+  - destruct (decide (x = k)) as [->|Hne].
+    + destruct (decide (k ∈ k :: ks)) as [_|Hn]; [|exfalso; apply Hn; constructor].
+      destruct (parent !! k) as [v|] eqn:E; [apply lookup_insert|].
+      rewrite IH. destruct (decide (k ∈ ks)); [try exact E; reflexivity|reflexivity].
+    + assert (Hiff : k ∈ x :: ks <-> k ∈ ks).
+      { rewrite elem_of_cons. split; [intros [?|?]; [congruence|assumption]|auto]. }
+      destruct (parent !! x); [rewrite lookup_insert_ne by assumption|]; rewrite IH;
+        destruct (decide (k ∈ ks)), (decide (k ∈ x :: ks)); tauto || reflexivity.
+Qed.
+
+(* blockers = number of listed key occurrences still uncached; the waiter is open exactly while it is > 0;
+   no Go panic (double close, close of nil, nil dereference, send on the closed channel) is reachable *)
+Lemma accounting c tr s : steps c (init c) tr s -> dupid s = false ->
+  broken s = false /\
+  forall t r, txs s t = Some r ->
+    blockers r = Z.of_nat (cntb (pendK (keys s)) (tkeys r)) /\
+    (waiter r = WOpen <-> (0 < blockers r)%Z) /\
+    (waiter r = WClosed -> blockers r = 0%Z).
+Proof.
+  intros Hs Hd. pose proof (reach_C _ _ _ Hs Hd) as IC. split; [apply (c_brk _ _ IC)|].
+  intros t r Hr. pose proof (c_blk _ _ IC _ _ Hr) as Hb. pose proof (c_wait _ _ IC _ _ Hr) as Hw.
+  split; [exact Hb|]. split; [exact Hw|]. intros Hc.
+  destruct (Z.eq_dec (blockers r) 0) as [|Hne]; [assumption|].
+  assert (waiter r = WOpen) by (apply Hw; lia). congruence.
+Qed.
+
+(* no lost wake-up (local form): a Get waiting for a tx whose keys are all cached can proceed *)
+Lemma wake_enabled c tr s g t r : steps c (init c) tr s -> dupid s = false ->
+  gph s g = GWait t -> txs s t = Some r ->
+  (forall k, k ∈ tkeys r -> cachedK (keys s) k = true) \/ stop s = true ->
+  exists b s', step c s (LGetWake g b) = Some s'.
+Proof.
+  intros Hs Hd Hg Hr Hor. destruct (accounting _ _ _ Hs Hd) as [_ Hacc].
+  destruct (Hacc _ _ Hr) as (Hb & Hw & _).
+  destruct (waiter r) eqn:Ew.
+  - exists false. cbn [step]. rewrite Hg, Hr, Ew. eauto.
+  - destruct Hor as [Hall|Hst].
+    + exfalso. assert (Hz : cntb (pendK (keys s)) (tkeys r) = 0).
+      { apply Nat.eq_add_0 with (m := 0). rewrite Nat.add_0_r.
+        clear -Hall. induction (tkeys r) as [|x l IH]; [reflexivity|]. cbn.
+        assert (Hx : cachedK (keys s) x = true) by (apply Hall; constructor).
+        unfold cachedK in Hx. unfold pendK. destruct (keys s x) as [kr|]; [|discriminate].
+        destruct (cache kr); [|discriminate]. cbn. apply IH. intros k Hk. apply Hall. constructor. exact Hk. }
+      assert (0 < blockers r)%Z by (apply Hw; reflexivity). lia.
+    + exists true. cbn [step]. rewrite Hg, Hr, Ew, Hst. eauto.
+  - exists false. cbn [step]. rewrite Hg, Hr, Ew. eauto.
+Qed.
+
+(* ============================================================================ group E: the sticky error *)
+Record InvE (c : cfg) (s : state) : Prop := {
+  e_get : forall g t e, EvGetRet g t (GErr e) ∈ log s -> e = err s /\ e <> None;
+  e_fetch : forall i e, EvFetchRet i (Some e) ∈ log s -> err s = Some e;
+  e_wait : forall e, EvWaitRet e ∈ log s -> e = err s /\ onc s = ODone;
+  e_surf : forall k, is_fail c k = true -> k ∈ readsl (log s) ->
+           err s <> None \/ exists w, ws s !! w = Some (WFail k)
+}.
+
+Lemma invE_init c : InvE c (init c).
+Proof. split; cbn; intros; match goal with H : _ ∈ [] |- _ => inversion H end. Qed.
+
+Ltac solveE IE :=
+  destruct IE as [Hget Hfetch Hwaitr Hsurf];
+  split; rewrite ?readsl_cons;
+  cbn [keys txs err onc stop tclosed queue unsent fph gph ws dupid broken log set_w set_ws set_fph set_gph app] in *;
+  rewrite ?readsl_cons, ?app_nil_r.
+
+Ltac ev_old H := intros; match goal with Hin : _ ∈ _ :: _ |- _ =>
+  apply elem_of_cons in Hin as [Hin|Hin]; [discriminate Hin|]; eapply H; eassumption end.
+
+Ltac surf_move Hsurf :=
+  let k1 := fresh "k" in let Hf := fresh "Hf" in let Hin := fresh "Hin" in
+  intros k1 Hf Hin; destruct (Hsurf k1 Hf Hin) as [?|[w1 Hw1]]; [left; assumption|];
+  right; exists w1;
+  match goal with E : ws _ !! ?w = Some _ |- _ =>
+    rewrite list_lookup_insert_ne; [exact Hw1|]; intros ->; rewrite Hw1 in E; discriminate E end.
+
+Lemma invE_step c s l s' : InvA c s -> InvE c s -> step c s l = Some s' -> InvE c s'.
+Proof.
+  intros IA IE H. destruct l; cbn [step] in H; des_step H; solveE IE.
+  all: try exact Hget. all: try exact Hfetch. all: try exact Hwaitr. all: try exact Hsurf.
+  all: try (ev_old Hget). all: try (ev_old Hfetch). all: try (ev_old Hwaitr).
+  all: try (surf_move Hsurf).
+  (* LFetch refused *)
+  - intros i1 e1 Hin. apply elem_of_cons in Hin as [Hin|Hin]; [inversion Hin; subst; assumption|eauto].
+  (* LFetch *)
+  - match goal with E : err s = None |- _ => rewrite E in Hget end. exact Hget.
+  - match goal with E : err s = None |- _ => rewrite E in Hfetch end. exact Hfetch.
+  - match goal with E : err s = None |- _ => rewrite E in Hwaitr end. exact Hwaitr.
+  - match goal with E : err s = None |- _ => rewrite E in Hsurf end. exact Hsurf.
+  (* LSendStop *)
+  - intros i1 e1 Hin. apply elem_of_cons in Hin as [Hin|Hin]; [inversion Hin; subst; congruence|eauto].
+  (* LRead *)
+  - intros k1 Hf Hin. apply elem_of_app in Hin as [Hin|Hin].
+    + destruct (Hsurf k1 Hf Hin) as [?|[w1 Hw1]]; [left; assumption|]. right. exists w1.
+      rewrite list_lookup_insert_ne; [exact Hw1|]. intros ->.
+      match goal with E : ws s !! _ = Some (WHas _) |- _ => rewrite Hw1 in E; discriminate E end.
+    + apply elem_of_list_singleton in Hin as ->. rewrite Hf. right. exists w. apply list_lookup_insert.
+      eapply lookup_lt_Some; eassumption.
+  (* LErrSet *)
+  - intros g1 t1 e1 Hin. destruct (Hget _ _ _ Hin) as [He Hn]. exfalso. apply Hn. rewrite He. apply (a_new _ _ IA). assumption.
+  - intros i1 e1 Hin. pose proof (Hfetch _ _ Hin) as He. rewrite (a_new _ _ IA) in He by assumption. discriminate.
+  - intros e1 Hin. destruct (Hwaitr _ Hin) as [_ Ho]. congruence.
+  - intros; left; discriminate.
+  (* LErrSkip *)
+  - intros k1 Hf Hin. left.
+    match goal with Ho : onc s = ODone |- _ => destruct (a_done _ _ IA Ho) as [Hs|Hx] end.
+    + apply (a_stop _ _ IA Hs).
+    + not_exited.
+  (* LErrClose *)
+  - intros e1 Hin. split; [apply (Hwaitr _ Hin)|reflexivity].
+  - intros k1 Hf Hin. left. match goal with Ho : onc s = ORun _ |- _ => apply (a_run _ _ IA _ Ho) end.
+  (* LStop *)
+  - intros g1 t1 e1 Hin. destruct (Hget _ _ _ Hin) as [He Hn]. exfalso. apply Hn. rewrite He. apply (a_new _ _ IA). assumption.
+  - intros i1 e1 Hin. pose proof (Hfetch _ _ Hin) as He. rewrite (a_new _ _ IA) in He by assumption. discriminate.
+  - intros e1 Hin. destruct (Hwaitr _ Hin) as [_ Ho]. congruence.
+  - intros; left; discriminate.
+  (* LGetWake true *)
+  - intros g1 t1 e1 Hin. apply elem_of_cons in Hin as [Hin|Hin]; [|eauto].
+    inversion Hin; subst. split; [reflexivity|]. apply (a_stop _ _ IA). assumption.
+  - intros g1 t1 e1 Hin. apply elem_of_cons in Hin as [Hin|Hin]; [|eauto].
+    inversion Hin; subst. split; [reflexivity|]. apply (a_stop _ _ IA). assumption.
+  (* LWaitRet *)
+  - intros e1 Hin. apply elem_of_cons in Hin as [Hin|Hin]; [inversion Hin; subst; split; reflexivity|].
+    split; [apply (Hwaitr _ Hin)|reflexivity].
+  - intros e1 Hin. apply elem_of_cons in Hin as [Hin|Hin]; [inversion Hin; subst; split; reflexivity|].
+    split; [apply (Hwaitr _ Hin)|reflexivity].
+Qed.
+
+Lemma reach_E c tr s : steps c (init c) tr s -> InvE c s.
+Proof.
+  revert tr s. apply (steps_ind_inv c (fun _ s => InvE c s)).
+  - apply invE_init.
+  - intros tr s l s' Hs IH Hst. destruct (reach_AB _ _ _ Hs) as [IA _]. eapply invE_step; eassumption.
+Qed.
+
+(* the error is sticky: once set it never changes *)
+Lemma err_sticky c s l s' e : InvA c s -> step c s l = Some s' -> err s = Some e -> err s' = Some e.
+Proof.
+  intros IA H He. destruct l; cbn [step] in H; des_step H; cbn [err set_w set_ws set_fph set_gph]; try exact He.
+  all: try discriminate He; try congruence.
+  all: match goal with Ho : onc _ = ONew |- _ => rewrite (a_new _ _ IA Ho) in He; discriminate He end.
+Qed.
+
+(* Fetch refuses new transactions once the error is set: nothing is registered, the error is returned *)
+Lemma fetch_refused c s i t ks e s' : err s = Some e -> step c s (LFetch i t ks) = Some s' ->
+  keys s' = keys s /\ txs s' = txs s /\ unsent s' = unsent s /\ fph s' i = FRet (Some e).
+Proof.
+  intros He H. cbn [step] in H. destruct (fph s i); try discriminate. destruct (tclosed s); [discriminate|].
+  rewrite He in H. inversion H; subst. cbn. rewrite upd_eq. auto.
+Qed.
+
+Lemma error_not_absence c tr s : steps c (init c) tr s ->
+  (* a Get that returns an error returns the (non-nil, sticky) error of the fetcher *)
+  (forall g t e, (g, t, GErr e) ∈ get_results s -> e = err s /\ e <> None) /\
+  (* a failing read that happened cannot go unnoticed: the error is set, or the worker is about to set it *)
+  (forall k, is_fail c k = true -> k ∈ reads s -> err s <> None \/ exists w, ws s !! w = Some (WFail k)) /\
+  (* what Fetch / Wait returned is the final error *)
+  (forall i e, EvFetchRet i (Some e) ∈ log s -> err s = Some e) /\
+  (forall e, EvWaitRet e ∈ log s -> e = err s).
+Proof.
+  intros Hs. pose proof (reach_E _ _ _ Hs) as IE. split; [|split; [|split]].
+  - intros g t e Hin. apply get_results_log in Hin. eapply e_get; eassumption.
+  - intros k Hf Hin. rewrite reads_readsl in Hin. eapply e_surf; eassumption.
+  - intros i e Hin. eapply e_fetch; eassumption.
+  - intros e Hin. apply (e_wait _ _ IE _ Hin).
+Qed.
